@@ -17,7 +17,7 @@ BIN = ("rwms", "ms", "gfms", "ms5")
 
 def gen_plan(rng, tier):
     r = rng.random()
-    if r < 0.0:  # archives enabled once world B exists
+    if r < 0.16:
         from . import c18_archive
         return c18_archive.gen_plan(rng, tier)
     mode = "cuts" if r < 0.72 else ("crash" if r < 0.88 else "live")
